@@ -25,12 +25,12 @@ def demo_cmd(demo, inc, exe):
         flags = flags.replace('c++17', 'c++20')
     if 'pthread' in txt or '<thread>' in txt:
         flags += ' -pthread'
-    return 'g++ %s -I%s %s -o %s' % (flags, inc, demo, exe)
+    return 'g++ %s -I%s %s -o %s' % (flags, inc, os.path.basename(demo), exe)   # compiled from its own directory: __FILE__ is the bare name
 
 
 def run_demo(demo, inc, tag):
     exe = tempfile.mktemp(prefix='demo_%s_' % tag)
-    r = sh(demo_cmd(demo, inc, exe))
+    r = sh(demo_cmd(demo, inc, exe), cwd=os.path.dirname(os.path.abspath(demo)))
     if r.returncode:
         return dict(compiled=False, out=r.stdout[-1500:])
     rcs = []
